@@ -37,6 +37,7 @@ func C15(r *core.Run) {
 	rule1013(r)
 	rule0113(r)
 	rule1510(r)
+	rule105(r)
 }
 
 var boltMutators = map[string]bool{
